@@ -9,7 +9,7 @@ import (
 	"go/constant"
 	"go/token"
 	"go/types"
-	"os"
+	"sort"
 	"strings"
 
 	"golang.org/x/tools/go/ssa"
@@ -231,15 +231,34 @@ type varintCase struct {
 	block  *ssa.BasicBlock // block executed when this case holds
 }
 
-func switchCases(fn *ssa.Function, v ssa.Value) ([]varintCase, *ssa.BasicBlock, string) {
+// sizeThresh, when non-nil, maps a size n to the largest value SizeVarint
+// reports n for; a case `SizeVarint(v) == n` is then the class with that bound.
+func switchCases(fn *ssa.Function, v ssa.Value, sizeThresh map[int64]uint64) ([]varintCase, *ssa.BasicBlock, string) {
 	var out []varintCase
 	b := fn.Blocks[0]
 	for {
 		ifi, ok := b.Instrs[len(b.Instrs)-1].(*ssa.If)
 		if !ok {
+			if sizeThresh != nil && len(out) > 0 {
+				// cases selected by size are disjoint: order them by bound
+				sort.Slice(out, func(i, j int) bool { return out[i].thresh < out[j].thresh })
+			}
 			return out, b, ""
 		}
 		bo, ok := ifi.Cond.(*ssa.BinOp)
+		if ok && sizeThresh != nil && bo.Op == token.EQL {
+			if c, isC := bo.X.(*ssa.Call); isC {
+				if f := c.Call.StaticCallee(); f != nil && f.Name() == "SizeVarint" && f.Pkg == fn.Pkg && len(c.Call.Args) == 1 && c.Call.Args[0] == v {
+					if k, isK := bo.Y.(*ssa.Const); isK && k.Value != nil {
+						if th, known := sizeThresh[k.Int64()]; known {
+							out = append(out, varintCase{th, b.Succs[0]})
+							b = b.Succs[1]
+							continue
+						}
+					}
+				}
+			}
+		}
 		if !ok || bo.X != v {
 			return nil, nil, "case condition is not a comparison of the value"
 		}
@@ -291,7 +310,7 @@ func c19(p *Prog, r *Report) {
 
 	// ---- R1 SizeVarint
 	{
-		cases, def, why := switchCases(siz, siz.Params[0])
+		cases, def, why := switchCases(siz, siz.Params[0], nil)
 		ok := why == "" && len(cases) == 4
 		var got []string
 		for i, c := range cases {
@@ -317,7 +336,18 @@ func c19(p *Prog, r *Report) {
 	}
 
 	// ---- R1 + R2 AppendVarint cases and encoder bytes
-	cases, def, why := switchCases(app, app.Params[1])
+	// SizeVarint's own table (checked above) may drive AppendVarint's switch
+	sizeThresh := map[int64]uint64{}
+	if sc, _, w := switchCases(siz, siz.Params[0], nil); w == "" {
+		for _, c := range sc {
+			if ret, ok := c.block.Instrs[len(c.block.Instrs)-1].(*ssa.Return); ok && len(ret.Results) == 1 {
+				if k, ok := ret.Results[0].(*ssa.Const); ok && k.Value != nil {
+					sizeThresh[k.Int64()] = c.thresh
+				}
+			}
+		}
+	}
+	cases, def, why := switchCases(app, app.Params[1], sizeThresh)
 	okA := why == "" && len(cases) == 4
 	if def != nil {
 		if _, isPanic := def.Instrs[len(def.Instrs)-1].(*ssa.Panic); !isPanic {
@@ -686,52 +716,7 @@ func c19(p *Prog, r *Report) {
 			r.Fail(R4, shortName(fn)+": layout mirrors "+d.mirror, p.Pos(fn.Pos()), "the length prefix is not read from the head of the input")
 			continue
 		}
-		total := prefix.plus(size)
-		blen := rg.lenOf(fn.Params[0])
-		rg.addressSpaceAxiom()
-		okL, nOK, nFail := true, 0, 0
-		detail := ""
-		for _, blk := range fn.Blocks {
-			ret, isRet := blk.Instrs[len(blk.Instrs)-1].(*ssa.Return)
-			if !isRet || rg.s.ff.dead[blk] {
-				continue
-			}
-			n, okN := rg.lin(ret.Results[1])
-			if isNilConst(ret.Results[0]) {
-				nFail++
-				facts := rg.factsAt(blk)
-				if !(okN && rg.entails(facts, n.scale(-1).addConst(-1))) {
-					okL, detail = false, "a nil result is reported with a non-negative length at "+p.InstrPos(ret)
-				}
-				if os.Getenv("C19_DEBUG") != "" {
-					for _, f := range facts {
-						fmt.Println("fact", p.InstrPos(ret), f.Short())
-					}
-					fmt.Println("goal", total.minus(blen).addConst(-1).Short())
-				}
-				if !prefixFail(facts) && !rg.entails(facts, total.minus(blen).addConst(-1)) {
-					okL, detail = false, "failure at "+p.InstrPos(ret)+" is not justified by prefix+size > len(b)"
-				}
-				continue
-			}
-			nOK++
-			base, off, ln, okV := rg.viewOf(ret.Results[0])
-			facts := rg.factsAt(blk)
-			eq := func(a, b Lin) bool { return rg.entails(facts, a.minus(b)) && rg.entails(facts, b.minus(a)) }
-			switch {
-			case !okV || base != ssa.Value(fn.Params[0]):
-				okL, detail = false, "the returned bytes are not a view of the input at "+p.InstrPos(ret)
-			case !eq(off, prefix):
-				okL, detail = false, "the returned view starts at "+off.Short()+", required "+prefix.Short()+" at "+p.InstrPos(ret)
-			case !eq(ln, size):
-				okL, detail = false, "the returned view has length "+ln.Short()+", required "+size.Short()+" at "+p.InstrPos(ret)
-			case !okN || !eq(n, total):
-				okL, detail = false, "the reported length is "+n.Short()+", required "+total.Short()+" at "+p.InstrPos(ret)
-			}
-		}
-		if nOK == 0 || nFail == 0 {
-			okL, detail = false, "no success or no failure return"
-		}
+		okL, detail, nOK, nFail := viewContract(p, rg, fn, fn.Params[0], prefix, size, prefixFail, 0)
 		r.Check(okL, R4, shortName(fn)+": returns b[prefix:prefix+size], prefix+size; fails exactly when that exceeds len(b)", p.Pos(fn.Pos()), fmt.Sprintf("mirrors %s: %d success, %d failure returns", d.mirror, nOK, nFail), detail)
 	}
 
@@ -824,4 +809,99 @@ func sliceByteIndex(base ssa.Value, prm ssa.Value, k int) (int, bool) {
 		base = sl.X
 	}
 	return 0, false
+}
+
+// viewContract: every return of fn either reports failure (nil, negative),
+// justified by prefix+size > len(b) or by prefixFail, or returns the view
+// b[prefix : prefix+size] and the length prefix+size - as linear identities
+// under the facts at the return. A return that passes on the results of an
+// in-module helper H(b, prefix', size') is accepted when the arguments equal
+// (b, prefix, size) under the caller's facts and H itself meets the contract
+// for its own parameters (given 0 <= prefix' <= len(b), which the caller
+// must establish).
+func viewContract(p *Prog, rg *Range, fn *ssa.Function, bParam ssa.Value, prefix, size Lin, prefixFail func([]Lin) bool, depth int) (okL bool, detail string, nOK, nFail int) {
+	okL = true
+	total := prefix.plus(size)
+	blen := rg.lenOf(bParam)
+	rg.addressSpaceAxiom()
+	for _, blk := range fn.Blocks {
+		ret, isRet := blk.Instrs[len(blk.Instrs)-1].(*ssa.Return)
+		if !isRet || rg.s.ff.dead[blk] || len(ret.Results) != 2 {
+			continue
+		}
+		// passthrough of a helper's results
+		if e0, ok := ret.Results[0].(*ssa.Extract); ok && depth < 2 {
+			if e1, ok := ret.Results[1].(*ssa.Extract); ok && e0.Tuple == e1.Tuple && e0.Index == 0 && e1.Index == 1 {
+				if c, ok := e0.Tuple.(*ssa.Call); ok {
+					if h := c.Call.StaticCallee(); h != nil && InModule(h) && h.Blocks != nil && h.Signature.Results().Len() == 2 {
+						facts := rg.factsAt(blk)
+						eq := func(a, b Lin) bool { return rg.entails(facts, a.minus(b)) && rg.entails(facts, b.minus(a)) }
+						bi, pi, si := -1, -1, -1
+						for i, a := range c.Call.Args {
+							if a == bParam {
+								bi = i
+								continue
+							}
+							if l, ok := rg.lin(a); ok {
+								facts = rg.factsAt(blk) // conversions registered by lin
+								switch {
+								case pi < 0 && eq(l, prefix):
+									pi = i
+								case si < 0 && eq(l, size):
+									si = i
+								}
+							}
+						}
+						if bi < 0 || pi < 0 || si < 0 || len(c.Call.Args) != 3 {
+							return false, "the helper " + shortName(h) + " is not called with (input, prefix length, declared size) at " + p.InstrPos(c), nOK, nFail
+						}
+						if !rg.entails(facts, prefix) || !rg.entails(facts, blen.minus(prefix)) {
+							return false, "the helper " + shortName(h) + " is called without 0 <= prefix <= len(b) established at " + p.InstrPos(c), nOK, nFail
+						}
+						hrg := p.NewRange(h)
+						hp, hs := hrg.atom(h.Params[pi]), hrg.atom(h.Params[si])
+						hrg.axiom(hp)                                // prefix >= 0
+						hrg.axiom(hrg.lenOf(h.Params[bi]).minus(hp)) // prefix <= len(b)
+						ok2, d2, n1, n2 := viewContract(p, hrg, h, h.Params[bi], hp, hs, func([]Lin) bool { return false }, depth+1)
+						if !ok2 {
+							return false, "in " + shortName(h) + ": " + d2, nOK, nFail
+						}
+						nOK += n1
+						nFail += n2
+						continue
+					}
+				}
+			}
+		}
+		n, okN := rg.lin(ret.Results[1])
+		if isNilConst(ret.Results[0]) {
+			nFail++
+			facts := rg.factsAt(blk)
+			if !(okN && rg.entails(facts, n.scale(-1).addConst(-1))) {
+				okL, detail = false, "a nil result is reported with a non-negative length at "+p.InstrPos(ret)
+			}
+			if !prefixFail(facts) && !rg.entails(facts, total.minus(blen).addConst(-1)) {
+				okL, detail = false, "failure at "+p.InstrPos(ret)+" is not justified by prefix+size > len(b)"
+			}
+			continue
+		}
+		nOK++
+		base, off, ln, okV := rg.viewOf(ret.Results[0])
+		facts := rg.factsAt(blk)
+		eq := func(a, b Lin) bool { return rg.entails(facts, a.minus(b)) && rg.entails(facts, b.minus(a)) }
+		switch {
+		case !okV || base != bParam:
+			okL, detail = false, "the returned bytes are not a view of the input at "+p.InstrPos(ret)
+		case !eq(off, prefix):
+			okL, detail = false, "the returned view starts at "+off.Short()+", required "+prefix.Short()+" at "+p.InstrPos(ret)
+		case !eq(ln, size):
+			okL, detail = false, "the returned view has length "+ln.Short()+", required "+size.Short()+" at "+p.InstrPos(ret)
+		case !okN || !eq(n, total):
+			okL, detail = false, "the reported length is "+n.Short()+", required "+total.Short()+" at "+p.InstrPos(ret)
+		}
+	}
+	if okL && (nOK == 0 || nFail == 0) {
+		okL, detail = false, "no success or no failure return"
+	}
+	return
 }
